@@ -348,8 +348,9 @@ func (l *Linter) lintSnippetVCL(vcl *ast.VCL, ctx *context.Context) types.Type {
 	// Set the context scope for linting
 	ctx.Scope(scope)
 
-	// Lint each statement in the snippet
-	for _, s := range vcl.Statements {
+	// Lint each statement in the snippet.
+	// A snippet is a subroutine body so that include statements are resolved like inside a block statement
+	for _, s := range l.resolveIncludeStatements(vcl.Statements, ctx, false) {
 		l.lintStatement(s, ctx)
 	}
 
